@@ -9,6 +9,7 @@ import (
 	"runtime"
 	"sort"
 	"strings"
+	"time"
 
 	"github.com/tonistiigi/fsutil"
 	"github.com/tonistiigi/fsutil/types"
@@ -157,9 +158,29 @@ func c08Run(c *core.Ctx) *core.Result {
 		cfg := wire.Config{Cap: capn}
 		// dwell inside every stream call (phase 0 runs while the in-flight
 		// counter of the endpoint is raised)
+		// ... and, in half of the schedules, after the hand-over: the call
+		// returns late, the peer may already have answered (a transport whose
+		// send completes after delivery)
+		dPost := []int{0, 300, 0, 3000}[schedNo%4]
+		g4 := rr.Fork()
 		cfg.Hook = func(end, op string, idx int64, phase int) {
 			if phase == 0 {
 				jitter(g3, dStream+1)
+			} else if dPost > 0 && op == "send" {
+				jitter(g4, dPost)
+			}
+		}
+		if schedNo%4 == 3 {
+			// every eighth request returns so late that the whole answer can
+			// have arrived before the requester goes on
+			nreq := 0
+			cfg.PostSend = func(end string, pk *types.Packet) {
+				if end == "R" && pk.Type == types.PACKET_REQ {
+					nreq++
+					if nreq%8 == 1 {
+						time.Sleep(30 * time.Millisecond)
+					}
+				}
 			}
 		}
 		res := runSync(syncOpt{Cfg: cfg, Src: sf, Dest: dest, Timeout: 240 * 1e9,
